@@ -431,7 +431,7 @@ def sizes(d):
 
 def shrink_desc(desc):
     """Smaller logically consistent descriptions: drop a leaf mutation, a site without
-    mutations, a migration, metadata."""
+    mutations, a migration, an edge (only when there are no mutations), metadata."""
     d = desc
     parents = {m[3] for m in d["mutations"]}
     for j in range(len(d["mutations"]) - 1, -1, -1):
@@ -455,10 +455,13 @@ def shrink_desc(desc):
         e = copy.deepcopy(d)
         del e["migrations"][k]
         yield e
-    for k in range(len(d["edges"]) - 1, -1, -1):
-        e = copy.deepcopy(d)
-        del e["edges"][k]
-        yield e
+    if not d["mutations"]:
+        # dropping an edge changes the trees: with mutations present their parent pointers
+        # would no longer be the nearest mutation above (not a consistent collection any more)
+        for k in range(len(d["edges"]) - 1, -1, -1):
+            e = copy.deepcopy(d)
+            del e["edges"][k]
+            yield e
     if any(r[-1] for t in ("nodes", "edges", "sites", "mutations", "migrations") for r in d[t]):
         e = copy.deepcopy(d)
         for t in ("nodes", "edges", "sites", "mutations", "migrations", "individuals", "populations"):
@@ -904,7 +907,7 @@ class MutParents(Family):
         return "J_eqb (j_res_with j_parents (%s)) %s" % (call, exp)
 
     def generate(self, rng, tier):
-        n = 600 if tier == "quick" else 10000
+        n = 600 if tier == "quick" else 6000
         for k in range(n):
             d = gen_ts.random_desc(rng, max_nodes=rng.choice([4, 7]), max_L=5, max_sites=3, max_muts=5,
                                    unknown_times=True if rng.random() < 0.7 else None)
@@ -1029,7 +1032,7 @@ class Canon(Family):
         return " && ".join(terms) if terms else None
 
     def generate(self, rng, tier):
-        nbase_ex, nrand = (6, 400) if tier == "quick" else (40, 6000)
+        nbase_ex, nrand = (6, 400) if tier == "quick" else (40, 4000)
         for _ in range(nbase_ex):
             d = variants(rng, base_desc(rng, small=True))
             d["migrations"] = []
@@ -1160,7 +1163,7 @@ class Dedup(Family):
         return "J_eqb (j_res (%s)) %s" % (call, exp)
 
     def generate(self, rng, tier):
-        n = 400 if tier == "quick" else 6000
+        n = 400 if tier == "quick" else 4000
         for k in range(n):
             d = add_duplicate_sites(rng, base_desc(rng, small=rng.random() < 0.4), p=0.7)
             yield {"desc": d, "perms": random_perms(rng, d), "presort": rng.random() < 0.9}
@@ -1238,7 +1241,7 @@ class Squash(Family):
         return "J_eqb (j_res (%s)) %s" % (call, exp)
 
     def generate(self, rng, tier):
-        n = 500 if tier == "quick" else 8000
+        n = 500 if tier == "quick" else 5000
         for k in range(n):
             d = base_desc(rng, small=rng.random() < 0.5, metadata=rng.random() < 0.1)
             edges = []
@@ -1333,7 +1336,7 @@ class Index(Family):
         return "J_eqb (j_res_with j_index (%s)) %s" % (call, exp)
 
     def generate(self, rng, tier):
-        n = 400 if tier == "quick" else 6000
+        n = 400 if tier == "quick" else 4000
         for k in range(n):
             d = base_desc(rng, small=rng.random() < 0.4)
             yield {"desc": d, "perms": random_perms(rng, d), "presort": rng.random() < 0.85}
@@ -1416,7 +1419,7 @@ class SortInv(Family):
     workers = 8
 
     def generate(self, rng, tier):
-        n = 300 if tier == "quick" else 5000
+        n = 300 if tier == "quick" else 3000
         for k in range(n):
             d = base_desc(rng, small=rng.random() < 0.4)
             if d["migrations"] and rng.random() < 0.3:
